@@ -8,7 +8,7 @@
    c11_covered_route_unique (also available as the executable certificate explicit_forced, evaluated on every
    explicit answer of a run).  Not proved: that those hypotheses hold of every network gnpy can build.
    Weights are integers (centimetres; gnpy's 0.01 non-fibre hop = 1). *)
-From Verif Require Import Prelude Model.Route Proofs.Route.
+From Verif Require Import Prelude Model.Route Proofs.Route Gen.RouteGen Proofs.RouteGen.
 Open Scope Z_scope.
 
 (* the reference enumeration is sound and complete: it lists exactly the loop-free walks from s to t *)
@@ -152,6 +152,50 @@ Theorem c11_clean_route_valid :
   (forall y, In y out_n -> is_roadm n y = true \/ is_line n y = true) /\ incl out_n nodes_list.
 Proof. exact clean_route_valid. Qed.
 Print Assumptions c11_clean_route_valid.
+
+(* ---------- translator tie: the decision code of /repo, re-translated on every run (Gen/RouteGen.v, generated by
+   harness/pygen_c11.py), IS the model the theorems above are about ---------- *)
+(* compute_constrained_path: guard, list handed to explicit_path / ispart, filter of the search, LOOSE fall-back test,
+   the two blocking reasons (same_result: equal results, or both an error) *)
+Theorem C11_source_compute_constrained_path :
+  forall n s t nodes_list strict_list,
+  same_result (g_ccp n s t nodes_list strict_list) (model_ccp n s t nodes_list strict_list).
+Proof. exact gen_ccp. Qed.
+Print Assumptions C11_source_compute_constrained_path.
+
+Theorem C11_source_search_is_model_route :
+  forall g s t inc strict,
+  search_by g s t (ispart inc) (negb strict) "NO_PATH" "NO_PATH_WITH_CONSTRAINT" = model_route g s t inc strict.
+Proof. exact search_by_model_route. Qed.
+Print Assumptions C11_source_search_is_model_route.
+
+Theorem C11_source_ispart : forall a b, g_ispart_from 0 a b = ispart a b.
+Proof. exact gen_ispart. Qed.
+Print Assumptions C11_source_ispart.
+
+Theorem C11_source_explicit_path_check :
+  forall n node_list t path, path <> [] ->
+  g_explicit_reject n node_list t path = negb (explicit_check n node_list t path).
+Proof. exact gen_explicit_reject. Qed.
+Print Assumptions C11_source_explicit_path_check.
+
+(* find_reversed_path collects the OMS of exactly the line elements (every class that is neither Transceiver nor Roadm) *)
+Theorem C11_source_find_reversed_path_filter :
+  forall n el, kind_of n el <> None -> g_rev_keeps n el = is_line n el.
+Proof. intros n el H. rewrite gen_rev_keeps. apply rev_keeps_line. exact H. Qed.
+Print Assumptions C11_source_find_reversed_path_filter.
+
+(* network_from_json: an edge leaving a Fiber (isinstance: every subclass) weighs the span length, any other 1 cm *)
+Theorem C11_source_edge_weight : forall is_fibre length_cm, g_edge_weight is_fibre length_cm = edge_weight is_fibre length_cm.
+Proof. exact gen_edge_weight. Qed.
+Print Assumptions C11_source_edge_weight.
+
+(* members of a synchronisation vector (compute_path_dsjctn step 4): same include test, on the full path *)
+Theorem C11_source_vector_member_include_test :
+  forall nl full short strict_list,
+  g_vector_include_ok nl full short = ispart nl full /\ g_vector_strict strict_list = existsb (fun b => b) strict_list.
+Proof. exact gen_vector_include. Qed.
+Print Assumptions C11_source_vector_member_include_test.
 
 (* ---------- non-vacuity ---------- *)
 (* square 1-2-4 / 1-3-4 with a chord: two routes, includes select the longer one, a STRICT impossible list blocks *)
